@@ -173,6 +173,12 @@ def table_text(tbl, name, pats, lines):
                  + ';\n  '.join(buckets) + f'];\n  wild := {w} |}}.')
 
 
+def live_dumper():
+    """A live Dumper instance as dumps_function creates it: its resolver table decides which str scalars get quoted."""
+    import yatiml
+    return yatiml.dumps_function().dumper(None, None, False, None, None, None, None, None, None, None, None, None, None, False)
+
+
 def live_tables():
     import yaml
     import yatiml
@@ -180,7 +186,7 @@ def live_tables():
     return {
         'loader_tbl': ld.yaml_implicit_resolvers,
         'std_tbl': yaml.SafeLoader.yaml_implicit_resolvers,
-        'dumper_tbl': yatiml.dumper.Dumper.yaml_implicit_resolvers,
+        'dumper_tbl': live_dumper().yaml_implicit_resolvers,
     }
 
 
